@@ -171,6 +171,7 @@ class History:
         native_out: dict[int, int] = {}          # task -> native cancel requests not yet uncancelled by the program
         self._tainted = tainted_groups
         self._start_errors = {}
+        self._user_wrapped = set()
         self._group_scope = group_scope
         pre_started_end: set[int] = set()
         enter_info: dict[int, tuple] = {}         # sid -> (task, ncancel at entry, step)
@@ -204,8 +205,12 @@ class History:
                 elif c == S.GEXIT:
                     errs = [x for x in (hb[1] if hb else []) if not is_cancel_code(x)]
                     expected.setdefault(b, []).extend(errs)
+                    if hb and hb[0] and any(is_cancel_code(x) for x in hb[1]):
+                        self._user_wrapped.add(b)       # the program itself put a cancellation into a group
                 elif c == S.FINISH:
                     finished_with[t] = ("exc", hb) if hb is not None else ("ret", b)
+                    if hb and hb[0] and any(is_cancel_code(x) for x in hb[1]) and t in child_group:
+                        self._user_wrapped.add(child_group[t])
                     if t in base_scope and prev["tasks"][t]["cur"] != base_scope[t] and t in child_group:
                         tainted_groups.add(child_group[t])    # ended with scopes still open: API misuse
                     if t in via_start and t not in started_val:
@@ -300,6 +305,9 @@ class History:
 
             for (t, op0, r, snap0, hb0) in completions:
                 c0, _a0, b0, d0 = op0
+                if self.real and c0 == S.SLEEP and b0 != 0 and r[0] == "ret" and t in snap0["tasks"] \
+                        and snap0["tasks"][t]["cur"] and ref_eff_cancelled(snap0, snap0["tasks"][t]["cur"]):
+                    self.v("C03", f"step {i}: task {t} slept through a whole sleep({b0}) although its scope {snap0['tasks'][t]['cur']} was effectively cancelled before the sleep began")
                 if r[0] == "exc":
                     held[t] = (r[1], list(r[2]))
                 if c0 in (S.EXIT, S.GEXIT) and r[0] == "ret" and r[1] == 1:
@@ -400,7 +408,7 @@ class History:
                 if lost:
                     self.v("C07", f"step {i}: errors {lost} raised by children started with start() were discarded (group {g} raised {got})")
             own = [x for x in cancels if x - 1000 == self._group_scope.get(g)]
-            if own and res[1]:
+            if own and res[1] and g not in self._user_wrapped:
                 self.v("C02", f"step {i}: group {g} reported cancellations {own} caused by its own scope among its errors")
         elif got:
             self.v("C02", f"step {i}: group {g} raised {got} although neither body nor children failed")
@@ -710,6 +718,15 @@ def scheck(pid: str, tier: str, extra_assumptions=None, known=None) -> int:
     if pid != "C06":          # C06 is judged on the virtual clock only
         for cfg in ("asyncio", "eager", "uvloop"):
             real_cfg_runs[cfg] = 0
+            for f in sorted(corpus_dir.glob("*.json")) if corpus_dir.exists() else []:
+                rw = sreal.real_run(json.loads(f.read_text())["ops"], cfg)
+                if rw is None:
+                    continue
+                real_cfg_runs[cfg] += 1
+                hr = analyse(rw.ops, rw.outs, real=True)
+                for msg in hr.viol.get(pid, []):
+                    real_hits.append((cfg, rw, msg))
+                    break
             for _ in range(n_real):
                 rw = sreal.real_random_run(rng, rng.choice([25, 50, 90]), real_prof, cfg)
                 if rw is None:
